@@ -12,12 +12,15 @@ for sid in sorted(os.listdir(os.path.join(V, "seeded"))):
     r = R.get(sid, {})
     q = r.get("quick", {})
     own = q.get(m["property"], "not run")
+    th = r.get("thorough", {}).get(m["property"])
+    if th and th != own:
+        own = f"{own} (thorough: {th})"
     others = ", ".join(f"{k}: {v.lower()}" for k, v in sorted(q.items()) if k != m["property"])
     hist = r.get("history", "")
     conf = "yes" if m.get("confirmed", {}).get("ok") else "NO"
     rows.append((m["property"], sid, m["what"], m["needs_to_manifest"], conf, own, others, hist))
 n = len(rows)
-det = sum(1 for r in rows if r[5] == "DETECTED")
+det = sum(1 for r in rows if "DETECTED" in r[5])
 out = []
 out.append("## 14. Seeded changes: which checks catch which changes\n")
 out.append("Every change below was written by a fresh sub-agent that was given **only the text of one property** and its own scratch "
@@ -28,7 +31,7 @@ out.append("Every change below was written by a fresh sub-agent that was given *
            "the patch to a scratch worktree and runs the property's registered quick command against it in isolation "
            "(`VERIF_REPO`/`VERIF_ALT`); none of these changes ever touched /repo. Two rounds were run per property; in round 2 the agents "
            "were additionally told which changes had already been tried.\n")
-out.append(f"Current state: **{det} of {n}** seeded changes are detected by the quick tier of the property they break (column *own check*). "
+out.append(f"Current state: **{det} of {n}** seeded changes are detected by the check of the property they break (column *own check*; quick tier unless a thorough result is shown). "
            "The *history* column records every change that was missed at first and what was strengthened; *other checks* lists further "
            "checks that were tried against the same change.\n")
 out.append("| property | seeded change | what it changes | needs, to manifest | confirmed | own check (quick) | other checks | history |")
